@@ -239,7 +239,14 @@ pub fn run(op: &str, a: &[String]) -> Vec<String> {
             std::fs::write(&p, unhex(&a[0])).unwrap();
             let out = rt.block_on(async {
                 vec![
-                    match Certificate::load_pemfile(&p).await { Ok(_) => "ok".to_string(), Err(_) => "err".into() },
+                    match Certificate::load_pemfile(&p).await {
+                        // an accepted certificate must be usable: its accessors parse the DER again
+                        Ok(c) => match std::panic::catch_unwind(std::panic::AssertUnwindSafe(|| c.serial())) {
+                            Ok(_) => "ok".to_string(),
+                            Err(_) => "trap:accepted_certificate_is_not_x509".to_string(),
+                        },
+                        Err(_) => "err".into(),
+                    },
                     match CertificateChain::load_pemfile(&p).await { Ok(c) => format!("ok:{}", c.as_slice().len()), Err(_) => "err".into() },
                     match PrivateKey::load_pemfile(&p).await { Ok(_) => "ok".to_string(), Err(_) => "err".into() },
                     match Certificate::from_der(unhex(&a[0])) { Ok(_) => "ok".to_string(), Err(_) => "err".into() },
